@@ -187,6 +187,8 @@ def run(ctx, model=None):
                 ctx.violation("no-solution-iff-value-zero", inp, {"true_value_state0": v0}, key=sig)
         else:
             ctx.violation("no-other-error", inp, {"outcome": r["outcome"], "msg": r.get("msg")})
+    check_case(ctx, gen.cascade_game(1050), None, limit=120.0)      # > 1000 rounds of prune_states
+    check_case(ctx, gen.big_dead_corridor(2100), model, limit=120.0)
     for n in ([50, 1200] if ctx.quick() else [50, 1200, 3000]):
         check_case(ctx, chain_game(n, rng), model, limit=60.0)
 
